@@ -1,77 +1,75 @@
 /* Frame-level contracts of src/rfc1055.c (property C12): rfc1055_encode and
  * rfc1055_decode.  Included by contracts/rfc1055.h.
  *
- * The encoding of a payload P[0..n) is pinned by a ghost offset map
- * g_sl_off[0..n]:  off[0] = 0,  off[k+1] = off[k] + (special(P[k]) ? 2 : 1)
- * (bounded-forall axiom in `requires`, expanded by the SAT back end over the
- * constant SL_NMAX: tier A-len; the loop proofs themselves are inductive).
- * The encoded stream is then  [END if start-of-frame]  esc(P[0]) at off[0],
- * ..., esc(P[n-1]) at off[n-1],  END at off[n]  (spec/slip.h).
+ * "The encoding of a payload" is the reference encoding of spec/slip.h
+ * (RFC 1055), in its streaming form: the sink acceptor and the source
+ * generator of stubs/rfc1055_io.h compare / produce it octet by octet.  Both
+ * loop proofs are inductive and need no bound on the payload length.
  */
 #ifndef CONTRACTS_RFC1055_FRAME_H
 #define CONTRACTS_RFC1055_FRAME_H
 
-#define SL_OFFMAP_OK(P, n, off) \
-  ((off)[0] == 0 && __CPROVER_forall { size_t k_; (k_ < SL_NMAX) ==> ((k_ < (n)) ==> SLIP_OFF_STEP(P, off, k_)) })
-
 /* ------------------------------------------------------------------------ */
-/* rfc1055_encode: the payload is what the source delivers until it reports
- * -ENODATA: c = g_sl_src_pos - old(g_sl_src_pos) octets P[k] =
- * g_sl_src[old(g_sl_src_pos) + k].  With q0 the sink position at entry and
- * sof = 1 in start-of-frame mode, 0 otherwise:
- *   success (0)   the sink received exactly  [END]  esc(P[0]) .. esc(P[c-1])
- *                 END : sof + off[c] + 1 <= 2c + 1 + sof octets; END occurs
- *                 only as the first (sof) and the last octet
+/* rfc1055_encode: the payload is what the (array-mode) source delivers until
+ * it reports -ENODATA: C octets g_sl_src[old(g_sl_src_pos) ..].  With R the
+ * number of octets the sink received:
+ *   success (0)   the sink received exactly the reference encoding
+ *                 [END if start-of-frame] esc(P[0]) .. esc(P[C-1]) END
+ *                 (acceptor: closed after C payload octets, nothing wrong),
+ *                 R <= 2C+1 (+1); END occurs only as first (start-of-frame)
+ *                 and last octet
  *   failure (<0)  the source's value (anything but -ENODATA) or the sink's
- *                 value, unchanged; what the sink received is a prefix of
- *                 the above */
+ *                 value, unchanged; what the sink received is a prefix of the
+ *                 reference encoding (acceptor: nothing wrong, not closed) */
 #define SLE_P0 __CPROVER_old(g_sl_src_pos)
 #define SLE_Q0 __CPROVER_old(g_sl_snk_pos)
 #define SLE_SOFN(ctx) (SL_SOF((ctx)->flags) ? (size_t)1 : (size_t)0)
 #define SLE_C ((size_t)(g_sl_src_pos - SLE_P0))
-#define SLE_NNEG0 __CPROVER_old(g_sl_src_nneg)
 #define SLE_R SL_REL(g_sl_snk_pos, SLE_Q0)
 #define SLE_O SL_REL(g_sl_obs, SLE_Q0)
-#define SLE_PAY(k) (g_sl_src[SL_CLI(SLE_P0 + (k), g_sl_src_len)])
-#define SLE_OFF(k) (g_sl_off[SL_CLI((k), g_sl_src_len - SLE_P0 + 1)])
 
 int rfc1055_encode(const RFC1055Context *ctx, Source *source, Sink *sink)
-__CPROVER_requires(__CPROVER_r_ok(ctx, sizeof(RFC1055Context)) && SL_SOURCE_OK(source) && SL_SINK_OK(sink) && SL_SRC_WF)
-__CPROVER_requires(g_sl_src_len - g_sl_src_pos <= SL_NMAX
-    && __CPROVER_r_ok(g_sl_off, (g_sl_src_len - g_sl_src_pos + 1) * sizeof(size_t)))
-__CPROVER_requires(SL_OFFMAP_OK(g_sl_src + g_sl_src_pos, g_sl_src_len - g_sl_src_pos, g_sl_off))
-__CPROVER_assigns(SL_SRC_ASSIGNS, SL_SNK_ASSIGNS)
+__CPROVER_requires(__CPROVER_r_ok(ctx, sizeof(RFC1055Context)) && SL_SOURCE_OK(source) && SL_SINK_OK(sink))
+__CPROVER_requires(!g_gn_on && SL_SRC_WF)
+/* acceptor (optional): fresh, expecting the encoding of the rest of the source stream */
+__CPROVER_requires(IMPLIES(g_ac_on, g_ac_pay == g_sl_src + g_sl_src_pos && g_ac_n == g_sl_src_len - g_sl_src_pos
+    && g_ac_sof == SL_SOF(ctx->flags) && g_ac_i == 0 && g_ac_s == 0 && !g_ac_closed && !g_ac_bad))
+__CPROVER_assigns(SL_SRC_ASSIGNS, SL_SNK_ASSIGNS, SL_ACC_ASSIGNS)
 __CPROVER_ensures(__CPROVER_return_value <= 0)
 __CPROVER_ensures(g_sl_src_pos >= SLE_P0 && g_sl_src_pos <= g_sl_src_len)
-/* what the sink received is a prefix of the frame, never longer than the
- * worst case */
-__CPROVER_ensures(SLE_R <= SLE_SOFN(ctx) + SLE_OFF(SLE_C) + 1 && SLE_R <= SLIP_WORST(SLE_C, SL_SOF(ctx->flags)))
+/* length: never more than the worst case; a complete frame has at least one
+ * octet per payload octet plus the delimiter(s) */
+__CPROVER_ensures(SLE_R <= SLIP_WORST(SLE_C, SL_SOF(ctx->flags)))
+__CPROVER_ensures(IMPLIES(__CPROVER_return_value == 0, SLE_R >= SLE_C + 1 + SLE_SOFN(ctx)))
+/* the delimiter occurs only as delimiter: first octet in start-of-frame
+ * mode, last octet of a complete frame, nowhere else */
 __CPROVER_ensures(IMPLIES(!(SLE_O < SLE_R), g_sl_snk_val == __CPROVER_old(g_sl_snk_val)))
 __CPROVER_ensures(IMPLIES(SL_SOF(ctx->flags) && SLE_O == 0 && SLE_R > 0, g_sl_snk_val == SLIP_END))
-__CPROVER_ensures(IMPLIES(g_k < SLE_C && SLE_O < SLE_R
-    && SLE_SOFN(ctx) + SLE_OFF(g_k) <= SLE_O && SLE_O < SLE_SOFN(ctx) + SLE_OFF(g_k + 1),
-    g_sl_snk_val == SLIP_IMG(SLE_PAY(g_k), SLE_O - SLE_SOFN(ctx) - SLE_OFF(g_k))))
-/* the delimiter occurs only as delimiter */
-__CPROVER_ensures(IMPLIES(SLE_O < SLE_R && SLE_SOFN(ctx) <= SLE_O && SLE_O < SLE_SOFN(ctx) + SLE_OFF(SLE_C),
+__CPROVER_ensures(IMPLIES(__CPROVER_return_value == 0 && SLE_O + 1 == SLE_R, g_sl_snk_val == SLIP_END))
+__CPROVER_ensures(IMPLIES(SLE_O < SLE_R && SLE_O >= SLE_SOFN(ctx) && !(__CPROVER_return_value == 0 && SLE_O + 1 == SLE_R),
     g_sl_snk_val != SLIP_END))
-/* success: complete frame, the source reported the end of the payload */
+/* the reference encoding, octet by octet */
+__CPROVER_ensures(IMPLIES(g_ac_on, !g_ac_bad))
+__CPROVER_ensures(IMPLIES(g_ac_on && __CPROVER_return_value == 0, g_ac_closed && !g_ac_sof && g_ac_i == SLE_C && g_ac_s == 0))
+__CPROVER_ensures(IMPLIES(g_ac_on && __CPROVER_return_value < 0, !g_ac_closed && g_ac_i <= SLE_C))
+__CPROVER_ensures(IMPLIES(!g_ac_on, SL_ACC_SAME_O))
+/* success: the source reported the end of the payload */
 __CPROVER_ensures(IMPLIES(__CPROVER_return_value == 0,
-    SLE_R == SLE_SOFN(ctx) + SLE_OFF(SLE_C) + 1
-    && IMPLIES(SLE_O == SLE_SOFN(ctx) + SLE_OFF(SLE_C), g_sl_snk_val == SLIP_END)
-    && g_sl_src_err == -ENODATA && g_sl_src_nneg == (size_t)(SLE_NNEG0 + 1u)))
+    g_sl_src_err == -ENODATA && g_sl_src_nneg == (size_t)(__CPROVER_old(g_sl_src_nneg) + 1u)))
 /* failure: a driver's value, unchanged */
 __CPROVER_ensures(IMPLIES(__CPROVER_return_value < 0,
-    (__CPROVER_return_value == g_sl_src_err && g_sl_src_nneg == (size_t)(SLE_NNEG0 + 1u)
-         && __CPROVER_return_value != -ENODATA && SLE_R == SLE_SOFN(ctx) + SLE_OFF(SLE_C))
+    (__CPROVER_return_value == g_sl_src_err && g_sl_src_nneg == (size_t)(__CPROVER_old(g_sl_src_nneg) + 1u)
+         && __CPROVER_return_value != -ENODATA)
     || (__CPROVER_return_value == g_sl_snk_err && g_sl_snk_nneg > __CPROVER_old(g_sl_snk_nneg))))
 ;
 
 /* ------------------------------------------------------------------------ */
 /* rfc1055_decode.
  *
- * For arbitrary input (any source stream, any of the three states, any flags):
+ * For arbitrary input (either source mode, any of the three states, any flags):
  *   - returns 1 (end of frame) or a negative value, never anything else;
- *   - returns 1 exactly after consuming an END, without any driver failure;
+ *   - returns 1 exactly after consuming an END, without any driver failure,
+ *     in the state in which the next frame is expected;
  *   - a driver failure (source or sink) is returned unchanged, at most one
  *     occurs; any other negative value is the decoder's own -EILSEQ (invalid
  *     escape, or a missing start delimiter in start-of-frame mode);
@@ -83,59 +81,38 @@ __CPROVER_ensures(IMPLIES(__CPROVER_return_value < 0,
  *     source *driver* that itself returns -EILSEQ is taken for an invalid
  *     escape by the decoder.)
  *
- * In frame mode (ghost flag g_sl_fm; see contracts/rfc1055-inv.h for the
- * stream layout: optional garbage up to a delimiter when entered in
- * SEARCH_FOR_END, the start delimiter in start-of-frame mode, then the
- * encoding of g_sl_pay[0..g_sl_n)):
+ * On a generated stream (g_gn_on; stubs/rfc1055_io.h: garbage up to a
+ * delimiter when entered in SEARCH_FOR_END, the start delimiter in
+ * start-of-frame mode unless entered in NORMAL, then the reference encoding of
+ * g_gn_pay[0 .. g_gn_n)), entered with the generator at its beginning:
  *   - without driver failure: returns 1, the sink received exactly the
- *     payload, the source is consumed through the closing END, the state is
- *     the one in which the next frame is expected;
- *   - with a driver failure: what the sink received is a prefix of the
- *     payload. */
+ *     payload, the stream is consumed through the closing END and no further;
+ *   - with a driver failure: what the sink received is a prefix of the payload. */
 #define SLD_P0 __CPROVER_old(g_sl_src_pos)
 #define SLD_Q0 __CPROVER_old(g_sl_snk_pos)
-#define SLD_ST0 __CPROVER_old(ctx->state)
 #define SLD_C ((size_t)(g_sl_src_pos - SLD_P0))
 #define SLD_R SL_REL(g_sl_snk_pos, SLD_Q0)
 #define SLD_O SL_REL(g_sl_obs, SLD_Q0)
 #define SLD_SRC_FAILED (g_sl_src_nneg != __CPROVER_old(g_sl_src_nneg))
 #define SLD_SNK_FAILED (g_sl_snk_nneg != __CPROVER_old(g_sl_snk_nneg))
-#define SLD_LAST (g_sl_src[SL_CLI(g_sl_src_pos - 1, g_sl_src_len)])
-/* base of the encoded payload in the source stream (pre-state expression) */
-#define SLD_BASE(ctx) (g_sl_src_pos + SL_PRE((ctx)->state, SL_SOF((ctx)->flags)))
-#define SLD_BASE_O(ctx) (SLD_P0 + SL_PRE(SLD_ST0, SL_SOF((ctx)->flags)))
+#define SLD_FRAME_AT_ENTRY_O(ctx) (g_gn_on && SL_FRAME_LAYOUT(__CPROVER_old(ctx->state), SL_SOF(ctx->flags)) \
+  && __CPROVER_old(g_gn_c) == 0 && __CPROVER_old(g_gn_i) == 0 && __CPROVER_old(g_gn_s) == 0 && !__CPROVER_old(g_gn_done))
 
 int rfc1055_decode(RFC1055Context *ctx, Source *source, Sink *sink)
 __CPROVER_requires(__CPROVER_rw_ok(ctx, sizeof(RFC1055Context)) && SL_STATE_OK(ctx->state))
-__CPROVER_requires(SL_SOURCE_OK(source) && SL_SINK_OK(sink) && SL_SRC_WF)
+__CPROVER_requires(SL_SOURCE_OK(source) && SL_SINK_OK(sink) && SL_SRC_WF && !g_ac_on)
 __CPROVER_requires(SL_SEP(ctx) && !__CPROVER_same_object(ctx, source) && !__CPROVER_same_object(ctx, sink))
-/* frame mode: layout of the stream */
-__CPROVER_requires(IMPLIES(g_sl_fm,
-    !(ctx->state == RFC1055_SEARCH_FOR_START && !SL_SOF(ctx->flags))
-    && g_sl_n <= SL_NMAX && g_sl_g <= SL_NMAX
-    && __CPROVER_r_ok(g_sl_off, (g_sl_n + 1) * sizeof(size_t)) && __CPROVER_r_ok(g_sl_pay, g_sl_n)
-    && !__CPROVER_same_object(ctx, g_sl_off) && !__CPROVER_same_object(ctx, g_sl_pay)
-    && g_sl_off[0] == 0 && g_sl_off[g_sl_n] <= 2 * g_sl_n
-    && SLD_BASE(ctx) <= g_sl_src_len && g_sl_off[g_sl_n] < g_sl_src_len - SLD_BASE(ctx)
-    && g_sl_src[SLD_BASE(ctx) + g_sl_off[g_sl_n]] == SLIP_END
-    && IMPLIES(ctx->state == RFC1055_SEARCH_FOR_END, g_sl_src[g_sl_src_pos + g_sl_g] == SLIP_END)
-    && IMPLIES(SL_START(ctx->state, SL_SOF(ctx->flags)) == 1, g_sl_src[SLD_BASE(ctx) - 1] == SLIP_END)))
-__CPROVER_requires(IMPLIES(g_sl_fm && ctx->state == RFC1055_SEARCH_FOR_END,
-    __CPROVER_forall { size_t j_; (j_ < SL_NMAX) ==> ((j_ < g_sl_g) ==> g_sl_src[g_sl_src_pos + j_] != SLIP_END) }))
-__CPROVER_requires(IMPLIES(g_sl_fm,
-    __CPROVER_forall { size_t k_; (k_ < SL_NMAX) ==> ((k_ < g_sl_n) ==>
-        (g_sl_off[k_ + 1] <= g_sl_off[g_sl_n] && SLIP_ENC_AT(g_sl_src + SLD_BASE(ctx), g_sl_pay, g_sl_off, k_))) }))
-__CPROVER_assigns(ctx->state, SL_SRC_ASSIGNS, SL_SNK_ASSIGNS)
+__CPROVER_assigns(ctx->state, SL_SRC_ASSIGNS, SL_GEN_ASSIGNS, SL_SNK_ASSIGNS)
 /* ---- arbitrary input ---- */
 __CPROVER_ensures(SL_STATE_OK(ctx->state) && ctx->flags == __CPROVER_old(ctx->flags))
 __CPROVER_ensures(__CPROVER_return_value == 1 || __CPROVER_return_value < 0)
-__CPROVER_ensures(g_sl_src_pos >= SLD_P0 && g_sl_src_pos <= g_sl_src_len)
+__CPROVER_ensures(g_sl_src_pos >= SLD_P0 && IMPLIES(!g_gn_on, g_sl_src_pos <= g_sl_src_len))
 /* never emits more than it consumed */
 __CPROVER_ensures(SLD_R <= SLD_C)
 __CPROVER_ensures(IMPLIES(!(SLD_O < SLD_R), g_sl_snk_val == __CPROVER_old(g_sl_snk_val)))
 /* end of frame */
 __CPROVER_ensures(IMPLIES(__CPROVER_return_value == 1,
-    SLD_C > 0 && SLD_LAST == SLIP_END && !SLD_SRC_FAILED && !SLD_SNK_FAILED
+    SLD_C > 0 && g_sl_src_last == SLIP_END && !SLD_SRC_FAILED && !SLD_SNK_FAILED
     && ctx->state == SL_AFTER_END(SL_SOF(ctx->flags))))
 /* driver failures are returned unchanged */
 __CPROVER_ensures(IMPLIES(SLD_SRC_FAILED,
@@ -145,16 +122,17 @@ __CPROVER_ensures(IMPLIES(SLD_SNK_FAILED,
 /* the decoder's own error: illegal sequence */
 __CPROVER_ensures(IMPLIES(__CPROVER_return_value < 0 && !SLD_SRC_FAILED && !SLD_SNK_FAILED,
     __CPROVER_return_value == -EILSEQ && SLD_C > 0
-    && ctx->state == (SLD_LAST == SLIP_END ? SL_AFTER_END(SL_SOF(ctx->flags)) : RFC1055_SEARCH_FOR_END)))
+    && ctx->state == (g_sl_src_last == SLIP_END ? SL_AFTER_END(SL_SOF(ctx->flags)) : RFC1055_SEARCH_FOR_END)))
 /* resynchronisation */
-__CPROVER_ensures(IMPLIES(SLD_C > 0 && SLD_LAST == SLIP_END && !(SLD_SRC_FAILED && g_sl_src_err == -EILSEQ),
+__CPROVER_ensures(IMPLIES(SLD_C > 0 && g_sl_src_last == SLIP_END && !(SLD_SRC_FAILED && g_sl_src_err == -EILSEQ),
     ctx->state == RFC1055_NORMAL || (SL_SOF(ctx->flags) && ctx->state == RFC1055_SEARCH_FOR_START)))
-/* ---- frame mode ---- */
-__CPROVER_ensures(IMPLIES(g_sl_fm, SLD_R <= g_sl_n))
-__CPROVER_ensures(IMPLIES(g_sl_fm && SLD_O < SLD_R, g_sl_snk_val == g_sl_pay[SL_CLI(SLD_O, g_sl_n)]))
-__CPROVER_ensures(IMPLIES(g_sl_fm && !SLD_SRC_FAILED && !SLD_SNK_FAILED,
-    __CPROVER_return_value == 1 && SLD_R == g_sl_n
-    && g_sl_src_pos == SLD_BASE_O(ctx) + g_sl_off[g_sl_n] + 1))
+__CPROVER_ensures(IMPLIES(SLD_C == 0, g_sl_src_last == __CPROVER_old(g_sl_src_last)))
+__CPROVER_ensures(IMPLIES(!g_gn_on, SL_GEN_SAME_O))
+/* ---- the encoding of a payload ---- */
+__CPROVER_ensures(IMPLIES(SLD_FRAME_AT_ENTRY_O(ctx), SLD_R <= g_gn_n))
+__CPROVER_ensures(IMPLIES(SLD_FRAME_AT_ENTRY_O(ctx) && SLD_O < SLD_R, g_sl_snk_val == g_gn_pay[SL_CLI(SLD_O, g_gn_n)]))
+__CPROVER_ensures(IMPLIES(SLD_FRAME_AT_ENTRY_O(ctx) && !SLD_SRC_FAILED && !SLD_SNK_FAILED,
+    __CPROVER_return_value == 1 && SLD_R == g_gn_n && g_gn_done && g_gn_i == g_gn_n && g_gn_c == SL_GN_PRE))
 ;
 
 #endif
